@@ -57,14 +57,14 @@ def main():
         if ra.returncode:
             print("PATCH DOES NOT APPLY", ra.stdout)
         else:
-            rb = sh(["/tmp/seed/baseline.py", wt])
+            rb = sh([os.path.join(HERE, "tools", "baseline.py"), wt])
             meta["baseline"] = rb.stdout.strip().splitlines()[:3]
             meta["baseline_ok"] = rb.returncode == 0
             r1 = sh(["/venv/bin/python", "demo_seed.py"], cwd=wt, env=env)
             meta["demo_with_patch_exit"] = r1.returncode
             meta["demo_with_patch_tail"] = r1.stdout.strip().splitlines()[-3:]
         meta["ran"].append("scratch worktree: demo on original, git apply, "
-                           "/tmp/seed/baseline.py, demo with patch")
+                           "tools/baseline.py <worktree>, demo with patch")
     finally:
         sh(["git", "-C", "/repo", "worktree", "remove", "--force", wt])
     valid = (meta.get("demo_on_original_exit") == 0 and
